@@ -9,6 +9,7 @@
   is used in a theorem statement.
 -/
 import Zed.Model.BranchCommit
+import Zed.Model.StoreFill
 import Zed.Model.Sexp
 namespace Zed.Store
 
@@ -33,6 +34,10 @@ structure ApiClient where
 
 structure Drv where
   sys : Sys
+  fill : Bool := false               -- create-then-fill puts (StoreFill.lean)
+  half : Path → Bool := fun _ => false
+  mid : Nat → Option Path := fun _ => none
+  broken : Bool := false
   api : Nat → ApiClient
   pools : List (Nat × Nat) := []     -- registry: createPool label ↦ pool id
   commits : List (Nat × Nat) := []   -- registry: commit label ↦ commit id
@@ -205,10 +210,13 @@ def svalStr (j : Nat) : SVal → String
   | .jsnap pos t => s!"s{pos}:" ++ ",".intercalate ((sortTable t).map fun e => s!"k{e.1}={valOf j e.2}")
 
 def evStr (c : Nat) (ev : Ev) : String :=
-  let op := match ev.op with | .get => "get" | .put => "put" | .putx => "putx" | .del => "del" | .delp => "delp"
-  let r := match ev.res with | .ok => "ok" | .notfound => "notfound" | .exists => "exists"
+  let op := match ev.op with
+    | .get => "get" | .put => "put" | .putx => "putx" | .del => "del" | .delp => "delp"
+    | .create => "create" | .createx => "createx" | .write => "write"
+  let r := match ev.res with | .ok => "ok" | .notfound => "notfound" | .exists => "exists" | .empty => "ok"
   let p := match ev.op with | .delp => s!"p#{ev.path.pool}" | _ => pathStr ev.path
   let v := match ev.val with | some v => svalStr ev.path.pool v | none => "-"
+  let v := match ev.res with | .empty => "empty" | _ => v
   s!"(e {c} {op} {p} {r} {v})"
 
 /-! ### The driver -/
@@ -220,6 +228,16 @@ def Drv.pushResult (d : Drv) (c idx : Nat) (r : String) : Drv :=
   if r == "unresolved" then d   -- never issued: no storage operation, no schedule entry
   else { d with results := d.results.push s!"(r {c} {idx} {r})" }
 
+/-- One storage operation of client c under the driver's put discipline. -/
+def Drv.stepC (d : Drv) (c : Nat) : Drv × Option Ev :=
+  if d.fill then
+    let f : FSys := ⟨d.sys, d.half, d.mid, d.broken⟩
+    let (f', ev) := f.step c
+    ({ d with sys := f'.a, half := f'.half, mid := f'.mid, broken := f'.broken }, ev)
+  else
+    let (s', ev) := d.sys.step c
+    ({ d with sys := s' }, ev)
+
 /-- One schedule entry for client c: at most one storage operation.  Non-storage transitions
     before it are run; after it the current API operation is settled (a finished operation is
     recorded at once, the next operation starts lazily at the client's next grant — the harness
@@ -229,8 +247,7 @@ def grant (d : Drv) (c : Nat) (stepped : Bool) : Nat → Drv
   | fuel + 1 =>
     if (d.sys.cl c).proc.isSome then
       if stepped then d else
-      let (s', ev) := d.sys.step c
-      let d := { d with sys := s' }
+      let (d, ev) := d.stepC c
       let d := match ev with
         | some ev => { d with trace := d.trace.push (evStr c ev) }
         | none => d
@@ -306,21 +323,25 @@ def clientOf : Sexp → Option (Nat × List ApiOp)
   | .list (c :: ops) => do pure (← natOf c, ← ops.mapM opOf)
   | _ => none
 
-def handleRun : List Sexp → String
-  | [.atom "run", .list (.atom "clients" :: cls), .list (.atom "sched" :: sch)] =>
+def handleRunMode (fill : Bool) (cls sch : List Sexp) : String :=
     match cls.mapM clientOf, sch.mapM natOf with
     | some cls, some sch =>
       let api : Nat → ApiClient := fun c => match cls.lookup c with
         | some ops => { ops := ops }
         | none => {}
-      let d : Drv := { sys := Sys.init, api := api }
+      let d : Drv := { sys := Sys.init, api := api, fill := fill }
       let d := runSched d sch
       let left := cls.filterMap fun (c, _) =>
         let a := d.api c
         if a.ops.isEmpty && (d.sys.cl c).proc.isNone then none else some s!"(left {c} {a.opIdx})"
+      let fin := if d.broken then ["(broken empty-entry-read)"] else finalState d.sys.store
       "(ok (trace " ++ " ".intercalate d.trace.toList ++ ") (results " ++ " ".intercalate d.results.toList ++
-        ") (final " ++ " ".intercalate (finalState d.sys.store) ++ ") (left " ++ " ".intercalate left ++ "))"
+        ") (final " ++ " ".intercalate fin ++ ") (left " ++ " ".intercalate left ++ "))"
     | _, _ => "bad-op"
+
+def handleRun : List Sexp → String
+  | [.atom "run", .list (.atom "clients" :: cls), .list (.atom "sched" :: sch)] => handleRunMode false cls sch
+  | [.atom "runfill", .list (.atom "clients" :: cls), .list (.atom "sched" :: sch)] => handleRunMode true cls sch
   | _ => "bad-op"
 
 end Zed.Store
